@@ -238,6 +238,29 @@ func gz(b []byte) []byte {
 	return z.Bytes()
 }
 
+// gzMulti renders b as a gzip stream of several members (what `cat a.gz b.gz`, pigz -i or
+// bgzip produce; RFC 1952 section 2.2: a file is a series of members). The member boundaries
+// are a pure function of key, so no tape draw is spent on them.
+func gzMulti(b []byte, key uint64) []byte {
+	members := 2 + int(core.Mix(key, 1)%3)
+	var z bytes.Buffer
+	start := 0
+	for m := 0; m < members; m++ {
+		end := len(b)
+		if m < members-1 {
+			end = start
+			if len(b) > start {
+				end = start + int(core.Mix(key, 2, uint64(m))%uint64(len(b)-start+1))
+			}
+		}
+		w := gzip.NewWriter(&z)
+		w.Write(b[start:end])
+		w.Close()
+		start = end
+	}
+	return z.Bytes()
+}
+
 func (c13) Run(t *testing.T, tape *core.Tape, rcx *RunCtx) *core.Result {
 	res := &core.Result{}
 	sc := &c13Scenario{}
@@ -318,6 +341,11 @@ func (c13) Run(t *testing.T, tape *core.Tape, rcx *RunCtx) *core.Result {
 	payload := text
 	if sc.Gzip {
 		payload = gz(text)
+		// one compressed file in four is a multi-member gzip stream
+		if key := core.Mix(uint64(rcx.Index), 0xc13, 0x9a); key%4 == 1 {
+			payload = gzMulti(text, key)
+			res.Count("probe_multi_member_gzip", 1)
+		}
 		cuts = []int{1, 2, 3, 10, len(payload) - 8, len(payload) - 4, len(payload) - 1}
 	}
 	sc.Cap = []int{0, 1, 2, 1 + tape.Draw(1000), 1000, 999}[tape.Weighted(25, 20, 15, 30, 7, 3)]
